@@ -17,16 +17,26 @@
   * `C09_nested_json_to_flat_partial` — nested JSON -> flat applied to the nested JSON of the wired
     tree returns exactly the flat value list, under the decidable side conditions `Wired.sideOK`.
 
+  * `C09_decode_wire_consumes_all_partial`, `C09_decode_wire_each_value_once_partial`,
+    `C09_decode_nested_json_to_flat_partial`, `C09_decode_message_nested_json_to_flat_partial` — the link to
+    the coder for the two template classes `C09.quietList a` (Lemmas/WireSim.lean: elements of every class,
+    Table D sequences, fixed and delayed replication arbitrarily nested, operators 201, 202, 205, 207, 208, 221,
+    plus 203 (`a = false`) or 204YYY with its 031021 / 204000, nested 204 included (`a = true`)):
+    for EVERY bit string, if the uncompressed decode of a subset succeeds then the wiring pass on its flat
+    lists succeeds, consumes exactly the decoded values (`hn`), `Wired.sideOK` holds, attachment and rendering
+    succeed, and decode -> wire -> nested JSON -> flat returns the decoded values (a step-by-step simulation of
+    the coder's walk by the wiring pass: both advance their index together and keep the same 204 stack).
+
   What is missing for the full statement ("for the outputs of every successful decode"): the link to the
-  coder, i.e. that for `o` produced by `decodeData` the wiring pass succeeds, consumes all of `o` and
-  labels agree (`Wired.sideOK`).  This is FALSE in general (findings F11a-d, F15: an associated field in
-  force over 203/206/marker/meaning constructs, resumed class-33 elements), true for the templates the
-  wiring pass understands; it is evaluated by the driver on every case of the correspondence check
-  (`side_ok` in the `views` response) and compared with the implementation's own node tree.
+  coder outside those classes, i.e. 203 or 206 together with 204 (FALSE there: findings F11a, F11b), the
+  bitmap operators 222-225 / 232 / 235-237 (FALSE for F11c, F11d, F15) and compressed data.  For those the side
+  conditions are evaluated by the driver on every case of the correspondence check (`side_ok` in the `views`
+  response) and compared with the implementation's own node tree.
   The two text formats are not modelled in Lean; they are covered by the oracle on the implementation.
 -/
 import BufrModel.Lemmas.Wire
 import BufrModel.Lemmas.NestedJson
+import BufrModel.Lemmas.WireSim
 namespace Bufr
 open Bufr.C09
 
@@ -144,5 +154,122 @@ def exO2 : SubsetOut :=
 
 example : (wireRaw [.op 204004, .elem (exE 31021 6), .op 203010, .elem (exE 1001 7), .op 203255, .op 204000]
     exO2).toOption.isSome = false := by decide +kernel
+
+/-! ### the link to the coder, for the templates in which the coder has no state the wiring pass lacks -/
+
+/-- The link to the coder for the two template classes `C09.quietList a` (Lemmas/WireSim.lean): elements of every
+    class, sequences, fixed and delayed replication arbitrarily nested, operators 201, 202, 205, 207, 208, 221, and
+    either 203 (`a = false`) or 204YYY with its 031021 / 204000 (`a = true`: associated fields on plain elements).
+    Whatever bits are decoded, if the (uncompressed) decode of a subset succeeds then the wiring pass run on its
+    flat lists succeeds too and consumes exactly the decoded values: the hypothesis `hn` of
+    `C09_wire_consumes_each_index_once_partial` holds.
+    MISSING for the full statement: 203 together with 204 and 206 (findings F11a, F11b: false there), the bitmap
+    operators 222-225 / 232 / 235-237 (F11c, F11d, F15: false for some) and compressed data. -/
+theorem C09_decode_wire_consumes_all_partial (a : Bool) (t : List Desc) (hq : quietList a t = true)
+    (bits rest : Bits) (o : SubsetOut) (h : decodeSubset t bits = .ok (o, rest)) :
+    ∃ w, wireRaw t o = .ok w ∧ w.st.next = o.vals.length := by
+  obtain ⟨w, x, y, _⟩ := decodeSubset_wire hq h
+  exact ⟨w, x, y⟩
+
+/-- hence, for those templates, the hierarchical view of every decoded subset holds every decoded value exactly
+    once (member, replication factor, associated-field attribute of its owner), in an arrangement whose tree order
+    is the flat order.  MISSING: as for `C09_decode_wire_consumes_all_partial`. -/
+theorem C09_decode_wire_each_value_once_partial (a : Bool) (t : List Desc) (hq : quietList a t = true)
+    (bits rest : Bits) (o : SubsetOut) (h : decodeSubset t bits = .ok (o, rest)) :
+    ∃ w, wireRaw t o = .ok w ∧ idxList w.nodes = List.range o.vals.length := by
+  obtain ⟨w, x, y⟩ := C09_decode_wire_consumes_all_partial a t hq bits rest o h
+  exact ⟨w, x, C09_wire_consumes_each_index_once_partial t o w x y⟩
+
+/-- and the whole chain decode -> wire -> nested JSON -> flat returns the decoded values: all the hypotheses of
+    `C09_nested_json_to_flat_partial` (`Wired.sideOK`, attachment and rendering succeed) hold for the outputs
+    of the decoder.  MISSING: as for `C09_decode_wire_consumes_all_partial`. -/
+theorem C09_decode_nested_json_to_flat_partial (a : Bool) (t : List Desc) (hq : quietList a t = true)
+    (bits rest : Bits) (o : SubsetOut) (h : decodeSubset t bits = .ok (o, rest)) :
+    ((wire t o >>= renderNested o) >>= nestedJsonToFlat) = .ok o.vals := by
+  obtain ⟨w, hw, hn, hlen, hp, htab⟩ := decodeSubset_wire hq h
+  have hs : w.sideOK o = true := by
+    unfold Wired.sideOK
+    rw [plainList_treeOK o w.nodes hp, htab, hn]
+    simp
+  have htree : w.tree = .ok w.nodes := by
+    unfold Wired.tree Wired.fuel
+    rw [htab]
+    exact resolveList_plain o (w.st.next + 2) ⟨by omega, fun _ => by omega⟩ w.nodes hp
+  obtain ⟨js, hj⟩ := renderNodes_plain o (by omega) w.nodes hp
+  have hflat := C09_nested_json_to_flat_partial t o w w.nodes js hw hs htree hj
+  have hwire : wire t o = .ok w.nodes := by unfold wire; rw [hw]; exact htree
+  rw [hwire]
+  show (renderNested o w.nodes >>= nestedJsonToFlat) = _
+  unfold renderNested
+  rw [hj]
+  exact hflat
+
+/-- the same for every subset of an uncompressed message -/
+theorem C09_decode_message_nested_json_to_flat_partial (a : Bool) (t : List Desc) (hq : quietList a t = true) :
+    ∀ (n : Nat) (bits rest : Bits) (outs : List SubsetOut), decodeData t false n bits = .ok (outs, rest) →
+      ∀ o ∈ outs, ((wire t o >>= renderNested o) >>= nestedJsonToFlat) = .ok o.vals := by
+  intro n
+  induction n with
+  | zero =>
+    intro bits rest outs h o ho
+    unfold decodeData at h
+    simp only [Bool.false_eq_true, if_false] at h
+    rw [decodeSubsets] at h
+    injection h with h; injection h with h _; subst h
+    cases ho
+  | succ n ih =>
+    intro bits rest outs h o ho
+    unfold decodeData at h
+    simp only [Bool.false_eq_true, if_false] at h
+    rw [decodeSubsets] at h
+    split at h
+    · cases h
+    · next o1 r1 h1 =>
+      split at h
+      · cases h
+      · next os r2 h2 =>
+        injection h with h; injection h with h _; subst h
+        cases ho with
+        | head => exact C09_decode_nested_json_to_flat_partial a t hq bits r1 o h1
+        | tail _ hm =>
+          refine ih r1 r2 os ?_ o hm
+          unfold decodeData
+          simp only [Bool.false_eq_true, if_false]
+          exact h2
+
+/-! ### non-vacuity: templates of both classes, decoded from bits -/
+
+/-- `001001 101000 031001 301001{001001 001002} 201130 012001 201000 221001 012001 205002` -/
+def exQ : List Desc :=
+  [.elem (exE 1001 7), .delayedRep 101000 (.elem (exE 31001 8)) [.seq 301001 [.elem (exE 1001 7), .elem (exE 1002 10)]],
+   .op 201130, .elem (exE 12001 12), .op 201000, .op 221001, .elem (exE 12001 12), .op 205002]
+
+example : quietList false exQ = true := by decide +kernel
+
+def exBits : Bits :=
+  List.replicate 7 false ++ [false, false, false, false, false, false, true, false] ++
+  List.replicate (2 * 17) true ++ List.replicate 14 false ++ List.replicate 16 false
+
+example : (decodeSubset exQ exBits).toOption.map (fun r => r.1.vals.length) = some 8 := by decide +kernel
+
+example : ((decodeSubset exQ exBits).toOption.map fun r =>
+    ((wire exQ r.1 >>= renderNested r.1) >>= nestedJsonToFlat).toOption == some r.1.vals) = some true := by
+  decide +kernel
+
+/-- `204004 031021 101000 031001 012001 204000 001001` (the template of `exT`): associated fields on the
+    members of a delayed replication; count 2 -/
+example : quietList true exT = true := by decide +kernel
+
+def exBitsA : Bits :=
+  [false, false, false, false, false, true] ++ [false, false, false, false, false, false, true, false] ++
+  [false, true, false, true] ++ List.replicate 12 false ++ [false, true, true, false] ++ List.replicate 12 true ++
+  List.replicate 7 false
+
+example : (decodeSubset exT exBitsA).toOption.map (fun r => r.1.vals) =
+    some [.int 1, .int 2, .int 5, .int 0, .int 6, .missing, .int 0] := by decide +kernel
+
+example : ((decodeSubset exT exBitsA).toOption.map fun r =>
+    ((wire exT r.1 >>= renderNested r.1) >>= nestedJsonToFlat).toOption == some r.1.vals) = some true := by
+  decide +kernel
 
 end Bufr
